@@ -23,88 +23,134 @@ theorem same_of_fabs_nets {a b : KV} (h1 : a.fabs = b.fabs) (h2 : a.nets = b.net
 theorem same_putFabric {a b : KV} (f : Fabric) (h : KV.Same a b) : KV.Same (a.putFabric f) (b.putFabric f) :=
   ⟨fun i => by rw [kvF_putFabric, kvF_putFabric, h.1 i], by simp [KV.putFabric, h.2]⟩
 
-/-- the projection does not change; new history elements equal the old store on it -/
+/-- the store history grows (newest first) by `new`, all of whose elements have a property -/
+def Grows (n n' : Node) (new : List KV) : Prop := n'.hist = new ++ n.hist
+
+/-- **positional**: the projection does not change; the history only GROWS, by elements that equal
+the old store on the projection -/
 def Quiet (n n' : Node) : Prop :=
-  KV.Same n'.kv n.kv ∧ ∀ kv ∈ n'.hist, kv ∈ n.hist ∨ KV.Same kv n.kv
+  KV.Same n'.kv n.kv ∧ ∃ new, n'.hist = new ++ n.hist ∧ ∀ kv ∈ new, KV.Same kv n.kv
 
-/-- new history elements equal the store before or after -/
-def One (n n' : Node) : Prop :=
-  ∀ kv ∈ n'.hist, kv ∈ n.hist ∨ KV.Same kv n.kv ∨ KV.Same kv n'.kv
+/-- **positional**: the history only GROWS (newest first) by at most one element that equals the NEW
+store (`a`), then - in the middle of a CommissioningComplete that performs two store mutations -
+the elements `mid`, then elements that equal the OLD store (`bs`) -/
+def Seg (n n' : Node) (mid : List KV) : Prop :=
+  ∃ (a bs : List KV), n'.hist = a ++ (mid ++ (bs ++ n.hist)) ∧ a.length ≤ 1 ∧
+    (∀ kv ∈ bs, KV.Same kv n.kv) ∧ (∀ kv ∈ a, KV.Same kv n'.kv) ∧
+    (a = [] → mid = [] ∧ KV.Same n'.kv n.kv)
 
-theorem quiet_refl (n : Node) : Quiet n n := ⟨KV.Same.refl _, fun kv h => Or.inl h⟩
+/-- at most one change of the projection, nothing in the middle -/
+def One (n n' : Node) : Prop := Seg n n' []
+
+theorem quiet_refl (n : Node) : Quiet n n := ⟨KV.Same.refl _, [], rfl, fun _ h => by cases h⟩
 
 theorem quiet_of_eq {n n' : Node} (h1 : n'.kv = n.kv) (h2 : n'.hist = n.hist) : Quiet n n' :=
-  ⟨by rw [h1]; exact KV.Same.refl _, fun kv h => Or.inl (by rw [← h2]; exact h)⟩
+  ⟨by rw [h1]; exact KV.Same.refl _, [], by rw [h2]; rfl, fun _ h => by cases h⟩
 
 theorem quiet_trans {a b c : Node} (h1 : Quiet a b) (h2 : Quiet b c) : Quiet a c := by
-  refine ⟨h2.1.trans h1.1, fun kv hk => ?_⟩
-  rcases h2.2 kv hk with h | h
-  · exact h1.2 kv h
-  · exact Or.inr (h.trans h1.1)
+  obtain ⟨s1, n1, e1, p1⟩ := h1
+  obtain ⟨s2, n2, e2, p2⟩ := h2
+  refine ⟨s2.trans s1, n2 ++ n1, by rw [e2, e1, List.append_assoc], fun kv hk => ?_⟩
+  rcases List.mem_append.mp hk with h | h
+  · exact (p2 kv h).trans s1
+  · exact p1 kv h
 
-theorem one_of_quiet {a b : Node} (h : Quiet a b) : One a b :=
-  fun kv hk => (h.2 kv hk).elim Or.inl (fun x => Or.inr (Or.inl x))
+theorem seg_of_quiet {a b : Node} (h : Quiet a b) : One a b := by
+  obtain ⟨hs, new, e, p⟩ := h
+  exact ⟨[], new, (by rw [e]; rfl), (by simp), p, (fun _ h => by cases h), fun _ => ⟨rfl, hs⟩⟩
 
-theorem quiet_one {a b c : Node} (h1 : Quiet a b) (h2 : One b c) : One a c := by
+theorem one_of_quiet {a b : Node} (h : Quiet a b) : One a b := seg_of_quiet h
+
+theorem quiet_seg {a b c : Node} {mid : List KV} (h1 : Quiet a b) (h2 : Seg b c mid) : Seg a c mid := by
+  obtain ⟨s1, n1, e1, p1⟩ := h1
+  obtain ⟨x, bs, e2, hx, pb, px, pe⟩ := h2
+  refine ⟨x, bs ++ n1, by rw [e2, e1, List.append_assoc], hx, fun kv hk => ?_, px,
+    fun ha => ⟨(pe ha).1, (pe ha).2.trans s1⟩⟩
+  rcases List.mem_append.mp hk with h | h
+  · exact (pb kv h).trans s1
+  · exact p1 kv h
+
+theorem quiet_one {a b c : Node} (h1 : Quiet a b) (h2 : One b c) : One a c := quiet_seg h1 h2
+
+/-- the store and its history are left as they are after the change -/
+theorem seg_eq {a b c : Node} {mid : List KV} (h1 : Seg a b mid) (hk : c.kv = b.kv) (hh : c.hist = b.hist) :
+    Seg a c mid := by
+  obtain ⟨x, bs, e, hx, pb, px, pe⟩ := h1
+  exact ⟨x, bs, by rw [hh, e], hx, pb, fun kv h => by rw [hk]; exact px kv h,
+    fun ha => ⟨(pe ha).1, by rw [hk]; exact (pe ha).2⟩⟩
+
+theorem one_eq {a b c : Node} (h1 : One a b) (hk : c.kv = b.kv) (hh : c.hist = b.hist) : One a c :=
+  seg_eq h1 hk hh
+
+/-- the set-level reading: every element of the new history is old, or equals the old / the new
+store on the projection, or is one of the elements in the middle -/
+theorem seg_mem {n n' : Node} {mid : List KV} (h : Seg n n' mid) :
+    ∀ kv ∈ n'.hist, kv ∈ n.hist ∨ KV.Same kv n.kv ∨ KV.Same kv n'.kv ∨ kv ∈ mid := by
+  obtain ⟨x, bs, e, _, pb, px, _⟩ := h
   intro kv hk
-  rcases h2 kv hk with h | h | h
-  · rcases h1.2 kv h with h' | h'
-    · exact Or.inl h'
-    · exact Or.inr (Or.inl h')
-  · exact Or.inr (Or.inl (h.trans h1.1))
+  rw [e] at hk
+  rcases List.mem_append.mp hk with h | h
+  · exact Or.inr (Or.inr (Or.inl (px kv h)))
+  · rcases List.mem_append.mp h with h | h
+    · exact Or.inr (Or.inr (Or.inr h))
+    · rcases List.mem_append.mp h with h | h
+      · exact Or.inr (Or.inl (pb kv h))
+      · exact Or.inl h
+
+theorem one_mem {n n' : Node} (h : One n n') :
+    ∀ kv ∈ n'.hist, kv ∈ n.hist ∨ KV.Same kv n.kv ∨ KV.Same kv n'.kv := by
+  intro kv hk
+  rcases seg_mem h kv hk with h | h | h | h
+  · exact Or.inl h
+  · exact Or.inr (Or.inl h)
   · exact Or.inr (Or.inr h)
+  · cases h
 
-theorem one_quiet {a b c : Node} (h1 : One a b) (h2 : Quiet b c) : One a c := by
+theorem quiet_mem {n n' : Node} (h : Quiet n n') : ∀ kv ∈ n'.hist, kv ∈ n.hist ∨ KV.Same kv n.kv := by
+  obtain ⟨_, new, e, p⟩ := h
   intro kv hk
-  rcases h2.2 kv hk with h | h
-  · rcases h1 kv h with h' | h' | h'
-    · exact Or.inl h'
-    · exact Or.inr (Or.inl h')
-    · exact Or.inr (Or.inr (h'.trans h2.1.symm))
-  · exact Or.inr (Or.inr (h.trans h2.1.symm))
+  rw [e] at hk
+  rcases List.mem_append.mp hk with h | h
+  · exact Or.inr (p kv h)
+  · exact Or.inl h
+
+/-- one effective mutation: the new store is pushed on the history -/
+theorem one_of_commit {n n' : Node} (hh : n'.hist = n'.kv :: n.hist) : One n n' := by
+  refine ⟨[n'.kv], [], (by rw [hh]; rfl), (by simp), (fun _ h => by cases h), (fun kv h => ?_), (fun h => by simp at h)⟩
+  rw [List.mem_singleton.mp h]; exact KV.Same.refl _
 
 /-! ### the primitives -/
 
 theorem storeFabric_one (n : Node) (f : Fabric) : One n (storeFabric n f).1 := by
   have ⟨_, hst⟩ := storeFabric_spec n f
   rcases hst with ⟨_, hkv, hh⟩ | ⟨_, hkv, hh⟩
-  · intro kv hk
-    rw [hh] at hk
-    rcases List.mem_cons.mp hk with rfl | hk
-    · exact Or.inr (Or.inr (by rw [hkv]; exact KV.Same.refl _))
-    · exact Or.inl hk
+  · exact one_of_commit (by rw [hh, hkv])
   · exact one_of_quiet (quiet_of_eq hkv hh)
 
 theorem removeFabricKey_one (n : Node) (idx : Nat) : One n (removeFabricKey n idx).1 := by
   have ⟨_, _, _, hst⟩ := removeFabricKey_spec n idx
   rcases hst with ⟨_, _, ⟨hkv, hh⟩ | ⟨hkv, hh⟩⟩ | ⟨_, hkv, hh⟩
-  · intro kv hk
-    rw [hh] at hk
-    rcases List.mem_cons.mp hk with rfl | hk
-    · exact Or.inr (Or.inr (by rw [hkv]; exact KV.Same.refl _))
-    · exact Or.inl hk
+  · exact one_of_commit (by rw [hh, hkv])
   · exact one_of_quiet (quiet_of_eq hkv hh)
   · exact one_of_quiet (quiet_of_eq hkv hh)
 
 theorem storeNets_one (n : Node) : One n (storeNets n).1 := by
   have ⟨_, hst⟩ := storeNets_spec n
   rcases hst with ⟨_, hkv, hh⟩ | ⟨_, hkv, hh⟩
-  · intro kv hk
-    rw [hh] at hk
-    rcases List.mem_cons.mp hk with rfl | hk
-    · exact Or.inr (Or.inr (by rw [hkv]; exact KV.Same.refl _))
-    · exact Or.inl hk
+  · exact one_of_commit (by rw [hh, hkv])
   · exact one_of_quiet (quiet_of_eq hkv hh)
 
-theorem purgeResum_quiet (n : Node) (idx : Nat) : Quiet n (purgeResum n idx).1 := by
-  have ⟨_, _, _, _, _, _, _, _, _, hst⟩ := purgeResum_spec n idx
-  rcases hst with ⟨hkv, hh⟩ | ⟨_, hkv, hh⟩
+theorem storeResum_quiet (n : Node) : Quiet n (storeResum n).1 := by
+  have ⟨_, _, _, hst⟩ := storeResum_spec n
+  rcases hst with ⟨_, hkv, hh, _⟩ | ⟨_, hkv, hh, _⟩
   · exact quiet_of_eq hkv hh
-  · refine ⟨by rw [hkv]; exact same_of_fabs_nets rfl rfl, fun kv hk => ?_⟩
-    rw [hh] at hk
-    rcases List.mem_cons.mp hk with rfl | hk
-    · exact Or.inr (same_of_fabs_nets rfl rfl)
-    · exact Or.inl hk
+  · refine ⟨by rw [hkv]; exact same_of_fabs_nets rfl rfl, [(storeResum n).1.kv], by rw [hh, hkv]; rfl, fun kv hk => ?_⟩
+    rw [List.mem_singleton.mp hk, hkv]
+    exact same_of_fabs_nets rfl rfl
+
+theorem purgeResum_quiet (n : Node) (idx : Nat) : Quiet n (purgeResum n idx).1 :=
+  quiet_trans (quiet_of_eq (n' := { n with resum := n.resum.filter (fun r => r.fab ≠ idx) }) rfl rfl)
+    (storeResum_quiet _)
 
 theorem expireArmed_kv (cfg : Cfg) (n : Node) (a : Armed) (exp : Option Nat) :
     (expireArmed cfg n a exp).1.kv = n.kv ∧ (expireArmed cfg n a exp).1.hist = n.hist := by
@@ -173,25 +219,58 @@ theorem write_one (n : Node) (f f' : Fabric) :
     rw [hst] at h'
     cases b <;> exact h'
 
+/-- `addNoc` (the command after the retry of a failed resumption-cache store) never touches the store -/
+theorem addNoc_store_untouched (cfg : Cfg) (n : Node) (sid : Nat) (mode : Mode) (ca fid node subj ser : Nat) :
+    (addNoc cfg n sid mode ca fid node subj ser).1.kv = n.kv ∧
+    (addNoc cfg n sid mode ca fid node subj ser).1.hist = n.hist := by
+  simp only [addNoc]
+  repeat' split
+  all_goals exact ⟨rfl, rfl⟩
+
+/-- AddNOC writes no fabric / network key: at most the resumption blob (the retry of a failed store) -/
+theorem sessOp_addnoc_quiet (cfg : Cfg) (n : Node) (sid s ca fid node subj ser : Nat) (mode : Mode) :
+    Quiet n (sessOp cfg n sid mode (.addnoc s ca fid node subj ser)).1 := by
+  simp only [sessOp]
+  rcases retryResum_cases n with hr | hr
+  · rw [hr]
+    have := addNoc_store_untouched cfg n sid mode ca fid node subj ser
+    exact quiet_of_eq this.1 this.2
+  · rw [hr]
+    have h1 := storeResum_quiet n
+    rcases hst : storeResum n with ⟨n1, b⟩
+    rw [hst] at h1
+    cases b with
+    | false => exact h1
+    | true =>
+      have := addNoc_store_untouched cfg n1 sid mode ca fid node subj ser
+      exact quiet_trans h1 (quiet_of_eq this.1 this.2)
+
 /-- the commands that never touch the store -/
 theorem sessOp_store_untouched (cfg : Cfg) (n : Node) (sid : Nat) (mode : Mode) (op : Op)
     (hop : (∃ s u, op = .csr s u) ∨ (∃ s c, op = .root s c) ∨
-           (∃ s c f nd a r, op = .addnoc s c f nd a r) ∨ (∃ s nd r, op = .updnoc s nd r) ∨
+           (∃ s nd r, op = .updnoc s nd r) ∨
            (∃ s v, op = .net s v) ∨ (∃ s v, op = .rmnet s v) ∨ (∃ s t, op = .arm s t ∧ t ≠ 0) ∨
            (∃ s v, op = .bcw s v) ∨ (∃ s, op = .openW s)) :
     (sessOp cfg n sid mode op).1.kv = n.kv ∧ (sessOp cfg n sid mode op).1.hist = n.hist := by
-  rcases hop with ⟨s, u, rfl⟩ | ⟨s, c, rfl⟩ | ⟨s, c, f, nd, a, r, rfl⟩ | ⟨s, nd, r, rfl⟩ | ⟨s, v, rfl⟩ | ⟨s, v, rfl⟩ |
+  rcases hop with ⟨s, u, rfl⟩ | ⟨s, c, rfl⟩ | ⟨s, nd, r, rfl⟩ | ⟨s, v, rfl⟩ | ⟨s, v, rfl⟩ |
     ⟨s, t, rfl, ht⟩ | ⟨s, v, rfl⟩ | ⟨s, rfl⟩
   all_goals simp only [sessOp]
   all_goals repeat' split
   all_goals first | exact ⟨rfl, rfl⟩ | (exfalso; omega) | exact windowTimeout_kv n | skip
 
-theorem sessOp_one (cfg : Cfg) (n : Node) (sid : Nat) (mode : Mode) (op : Op) (hnc : ∀ s, op ≠ .complete s) :
-    One n (sessOp cfg n sid mode op).1 := by
+/-- the session-borne commands that change the fabric / network keys of the store: the fabric-scoped
+writes, RemoveFabric, CommissioningComplete -/
+def storeOp : Op → Bool
+  | .acl .. | .grp .. | .label .. | .fwrite _ | .rmfab .. | .complete _ => true
+  | _ => false
+
+/-- every other session-borne command leaves the projection of the store alone -/
+theorem sessOp_quiet (cfg : Cfg) (n : Node) (sid : Nat) (mode : Mode) (op : Op) (hq : storeOp op = false) :
+    Quiet n (sessOp cfg n sid mode op).1 := by
   cases op with
   | openW s =>
     have := sessOp_store_untouched cfg n sid mode (.openW s) (by simp)
-    exact one_of_quiet (quiet_of_eq this.1 this.2)
+    exact quiet_of_eq this.1 this.2
   | arm s secs =>
     by_cases h0 : secs = 0
     · subst h0
@@ -199,31 +278,51 @@ theorem sessOp_one (cfg : Cfg) (n : Node) (sid : Nat) (mode : Mode) (op : Op) (h
       have := expire_quiet cfg n (some sid)
       rcases hr : expire cfg n (some sid) with ⟨n1, e⟩
       rw [hr] at this
-      cases e <;> exact one_of_quiet this
+      cases e <;> exact this
     · have := sessOp_store_untouched cfg n sid mode (.arm s secs)
-        (Or.inr (Or.inr (Or.inr (Or.inr (Or.inr (Or.inr (Or.inl ⟨s, secs, rfl, h0⟩)))))))
-      exact one_of_quiet (quiet_of_eq this.1 this.2)
+        (Or.inr (Or.inr (Or.inr (Or.inr (Or.inr (Or.inl ⟨s, secs, rfl, h0⟩))))))
+      exact quiet_of_eq this.1 this.2
   | csr s upd =>
     have := sessOp_store_untouched cfg n sid mode (.csr s upd) (by simp)
-    exact one_of_quiet (quiet_of_eq this.1 this.2)
+    exact quiet_of_eq this.1 this.2
   | root s ca =>
     have := sessOp_store_untouched cfg n sid mode (.root s ca) (by simp)
-    exact one_of_quiet (quiet_of_eq this.1 this.2)
+    exact quiet_of_eq this.1 this.2
   | addnoc s ca fid node subj ser =>
-    have := sessOp_store_untouched cfg n sid mode (.addnoc s ca fid node subj ser) (by simp)
-    exact one_of_quiet (quiet_of_eq this.1 this.2)
+    exact sessOp_addnoc_quiet cfg n sid s ca fid node subj ser mode
   | updnoc s node ser =>
     have := sessOp_store_untouched cfg n sid mode (.updnoc s node ser) (by simp)
-    exact one_of_quiet (quiet_of_eq this.1 this.2)
+    exact quiet_of_eq this.1 this.2
   | net s v =>
     have := sessOp_store_untouched cfg n sid mode (.net s v) (by simp)
-    exact one_of_quiet (quiet_of_eq this.1 this.2)
+    exact quiet_of_eq this.1 this.2
   | rmnet s v =>
     have := sessOp_store_untouched cfg n sid mode (.rmnet s v) (by simp)
-    exact one_of_quiet (quiet_of_eq this.1 this.2)
+    exact quiet_of_eq this.1 this.2
   | bcw s v =>
     have := sessOp_store_untouched cfg n sid mode (.bcw s v) (by simp)
-    exact one_of_quiet (quiet_of_eq this.1 this.2)
+    exact quiet_of_eq this.1 this.2
+  | revoke s =>
+    simp only [sessOp]
+    have := expire_quiet cfg n (some sid)
+    rcases hr : expire cfg n (some sid) with ⟨n1, e⟩
+    rw [hr] at this
+    cases e with
+    | some e => exact this
+    | none => exact quiet_trans this (quiet_of_eq rfl rfl)
+  | acl s v => simp [storeOp] at hq
+  | grp s v => simp [storeOp] at hq
+  | label s v => simp [storeOp] at hq
+  | fwrite s => simp [storeOp] at hq
+  | rmfab s idx => simp [storeOp] at hq
+  | complete s => simp [storeOp] at hq
+  | _ => exact quiet_refl n
+
+theorem sessOp_one (cfg : Cfg) (n : Node) (sid : Nat) (mode : Mode) (op : Op) (hnc : ∀ s, op ≠ .complete s) :
+    One n (sessOp cfg n sid mode op).1 := by
+  by_cases hso : storeOp op = false
+  · exact one_of_quiet (sessOp_quiet cfg n sid mode op hso)
+  cases op with
   | acl s v =>
     simp only [sessOp]
     split
@@ -282,32 +381,143 @@ theorem sessOp_one (cfg : Cfg) (n : Node) (sid : Nat) (mode : Mode) (op : Op) (h
           simp only at ho
           cases b3 with
           | false => exact ho
-          | true => exact one_quiet ho (quiet_of_eq rfl rfl)
+          | true => exact one_eq ho rfl rfl
       · exact one_of_quiet (quiet_refl n)
-  | revoke s =>
-    simp only [sessOp]
-    have := expire_quiet cfg n (some sid)
-    rcases hr : expire cfg n (some sid) with ⟨n1, e⟩
-    rw [hr] at this
-    cases e with
-    | some e => exact one_of_quiet this
-    | none => exact one_of_quiet (quiet_trans this (quiet_of_eq rfl rfl))
-  | _ => exact one_of_quiet (quiet_refl n)
+  | _ => simp [storeOp] at hso
 
-/-- CommissioningComplete: the fabric, then the networks - the snapshot between the two writes is
-the store before the command with the fabric record written -/
-theorem sessOp_complete_snaps (cfg : Cfg) (n : Node) (sid s : Nat) (mode : Mode) :
-    ∀ kv ∈ (sessOp cfg n sid mode (.complete s)).1.hist,
-      kv ∈ n.hist ∨ KV.Same kv n.kv ∨ KV.Same kv (sessOp cfg n sid mode (.complete s)).1.kv ∨
-      ((∃ f, KV.Same kv (n.kv.putFabric f)) ∧
-        n.hist.length + 2 ≤ (sessOp cfg n sid mode (.complete s)).1.hist.length) := by
+/-- the undo of the first write of a failed CommissioningComplete: nothing, or one removal -/
+theorem undoAdded_hist (n : Node) (idx : Nat) :
+    ((undoAdded n idx).kv = n.kv ∧ (undoAdded n idx).hist = n.hist) ∨
+    ((undoAdded n idx).kv = n.kv.delFabric idx ∧ (undoAdded n idx).hist = n.kv.delFabric idx :: n.hist) := by
+  unfold undoAdded
+  split
+  · have ⟨_, _, _, hst⟩ := removeFabricKey_spec n idx
+    rcases hst with ⟨_, _, ⟨hkv, hh⟩ | ⟨hkv, hh⟩⟩ | ⟨_, hkv, hh⟩
+    · exact Or.inr ⟨hkv, hh⟩
+    · exact Or.inl ⟨hkv, hh⟩
+    · exact Or.inl ⟨hkv, hh⟩
+  · exact Or.inl ⟨rfl, rfl⟩
+
+theorem undoAdded_one (n : Node) (idx : Nat) : One n (undoAdded n idx) := by
+  rcases undoAdded_hist n idx with ⟨hkv, hh⟩ | ⟨hkv, hh⟩
+  · exact one_of_quiet (quiet_of_eq hkv hh)
+  · exact one_of_commit (by rw [hh, hkv])
+
+/-! ### the undo of a half-done CommissioningComplete -/
+
+theorem kvTick_bad_failIn (n : Node) (h : (kvTick n).2 = true) : (kvTick n).1.failIn = 0 := by
+  unfold kvTick at h ⊢
+  split
+  · rename_i h0; simp [h0] at h
+  · split
+    · rfl
+    · rename_i h0 h1; simp [h0, h1] at h
+
+theorem storeNets_fail_failIn (n : Node) (h : (storeNets n).2 = false) : (storeNets n).1.failIn = 0 := by
+  have hb := kvTick_bad_failIn n
+  unfold storeNets at h ⊢
+  rcases ht : kvTick n with ⟨n1, bad⟩
+  rw [ht] at hb
+  simp only [ht] at h ⊢
+  cases bad with
+  | true => exact hb rfl
+  | false => simp at h
+
+theorem removeFabricKey_calm {n : Node} (idx : Nat) (h : n.failIn = 0) :
+    removeFabricKey n idx = (if n.kv.hasFabric idx then kvCommit n (n.kv.delFabric idx) else n, true) := by
+  have hk : kvTick n = (n, false) := by simp [kvTick, h]
+  simp only [removeFabricKey, hk]
+  by_cases hf : n.kv.hasFabric idx = true <;> simp [hf]
+
+/-- **The repaired half of `C08-complete-partial-commit` / `C11-complete-store-failure`**: a
+CommissioningComplete for a fabric ADDED under the fail-safe (it has no stored record) that is not
+acknowledged - whichever of its two writes fails - leaves the store, on the fabric records and the
+networks, exactly as it was: when the networks cannot be stored, the fabric record just written is
+removed again. (An injected fault hits one call, so the removal itself does not fail.) -/
+theorem failed_complete_of_added_fabric_undone (cfg : Cfg) (n : Node) (sid s : Nat) (mode : Mode) (a : Armed)
+    (hfs : n.fs = some a) (hadd : a.flags.addNoc = true) (hnone : kvF n.kv mode.fab = none)
+    (hfail : (sessOp cfg n sid mode (.complete s)).2 ≠ .ok) :
+    KV.Same (sessOp cfg n sid mode (.complete s)).1.kv n.kv := by
+  simp only [sessOp] at hfail ⊢
+  cases hca : checkArmed n mode with
+  | some e => exact KV.Same.refl _
+  | none =>
+    have hab : a.fab = mode.fab := by
+      unfold checkArmed at hca
+      rw [hfs] at hca
+      by_cases hh : a.fab = mode.fab
+      · exact hh
+      · simp [hh] at hca
+    rw [hca] at hfail
+    simp only [] at hfail ⊢
+    split
+    · exact KV.Same.refl _
+    · rename_i hcase
+      simp only [hcase, if_false] at hfail
+      cases hg : getFabric n mode.fab with
+      | none => exact KV.Same.refl _
+      | some f =>
+        have hidx := getFabric_idx hg
+        rw [hg] at hfail
+        simp only [] at hfail ⊢
+        have ⟨hfr1, hst1⟩ := storeFabric_spec n f
+        rcases hr1 : storeFabric n f with ⟨n1, b1⟩
+        rw [hr1] at hfr1 hst1 hfail
+        simp only at hfr1 hst1 hfail
+        rcases hst1 with ⟨hb1, hkv1, _⟩ | ⟨hb1, hkv1, _⟩
+        · subst hb1
+          simp only [] at hfail ⊢
+          have ⟨hfr2, hst2⟩ := storeNets_spec { n1 with managed := true }
+          have hfi := storeNets_fail_failIn { n1 with managed := true }
+          rcases hr2 : storeNets { n1 with managed := true } with ⟨n2, b2⟩
+          rw [hr2] at hfr2 hst2 hfail hfi
+          simp only at hfr2 hst2 hfail hfi
+          cases b2 with
+          | true => simp [ok] at hfail
+          | false =>
+            simp only []
+            rcases hst2 with ⟨hb, _⟩ | ⟨_, hkv2, _⟩
+            · cases hb
+            · have hkv2' : n2.kv = n.kv.putFabric f := by rw [hkv2]; exact hkv1
+              have hfs2 : n2.fs = some a := by rw [hfr2.fs]; exact hfr1.fs.trans hfs
+              have hadding : addingFabric { n2 with managed := n1.managed } f.idx = true := by
+                unfold addingFabric
+                simp only [hfs2, hab, hidx, hadd, beq_self_eq_true, Bool.and_self]
+              unfold undoAdded
+              have hfi' : ({ n2 with managed := n1.managed } : Node).failIn = 0 := hfi rfl
+              rw [if_pos hadding, removeFabricKey_calm f.idx hfi']
+              have hhas : ({ n2 with managed := n1.managed } : Node).kv.hasFabric f.idx = true := by
+                show n2.kv.hasFabric f.idx = true
+                rw [hkv2']
+                simp [KV.hasFabric, KV.putFabric]
+              rw [if_pos hhas]
+              refine ⟨fun i => ?_, ?_⟩
+              · show kvF (n2.kv.delFabric f.idx) i = kvF n.kv i
+                rw [kvF_delFabric, hkv2', kvF_putFabric]
+                by_cases hi : i = f.idx
+                · rw [if_pos hi, hi, hidx, hnone]
+                · rw [if_neg hi, if_neg hi]
+              · show (n2.kv.delFabric f.idx).nets = n.kv.nets
+                rw [hkv2']; rfl
+        · subst hb1
+          simp only []
+          rw [hkv1]; exact KV.Same.refl _
+
+/-- CommissioningComplete: the fabric, then the networks.  Either it changes the projection at most
+once (no store mutation, one, or the first write failed), or it performs TWO store mutations - the
+fabric record and the networks, or (the networks cannot be stored) the record of a fabric added under
+the fail-safe and its removal: the store between them is the store before with the record written -/
+theorem sessOp_complete_seg (cfg : Cfg) (n : Node) (sid s : Nat) (mode : Mode) :
+    One n (sessOp cfg n sid mode (.complete s)).1 ∨
+    ∃ f, getFabric n mode.fab = some f ∧ Seg n (sessOp cfg n sid mode (.complete s)).1 [n.kv.putFabric f] ∧
+      n.hist.length + 2 = (sessOp cfg n sid mode (.complete s)).1.hist.length := by
   simp only [sessOp]
   split
-  · exact fun kv hk => Or.inl hk
+  · exact Or.inl (one_of_quiet (quiet_refl n))
   · split
-    · exact fun kv hk => Or.inl hk
+    · exact Or.inl (one_of_quiet (quiet_refl n))
     · cases hg : getFabric n mode.fab with
-      | none => exact fun kv hk => Or.inl hk
+      | none => exact Or.inl (one_of_quiet (quiet_refl n))
       | some f =>
         simp only []
         have ⟨_, hst1⟩ := storeFabric_spec n f
@@ -321,177 +531,223 @@ theorem sessOp_complete_snaps (cfg : Cfg) (n : Node) (sid s : Nat) (mode : Mode)
           rcases hr2 : storeNets { n1 with managed := true } with ⟨n2, b2⟩
           rw [hr2] at hst2
           simp only at hst2
-          have hcase : ∀ (m : Node), m.kv = n2.kv → m.hist = n2.hist →
-              ∀ kv ∈ m.hist, kv ∈ n.hist ∨ KV.Same kv n.kv ∨ KV.Same kv m.kv ∨
-                ((∃ f, KV.Same kv (n.kv.putFabric f)) ∧ n.hist.length + 2 ≤ m.hist.length) := by
-            intro m hmk hmh kv hk
-            rw [hmh] at hk
-            rcases hst2 with ⟨_, hkv2, hh2⟩ | ⟨_, hkv2, hh2⟩
-            · rw [hh2] at hk
-              rcases List.mem_cons.mp hk with rfl | hk
-              · exact Or.inr (Or.inr (Or.inl (by rw [hmk, hkv2]; exact KV.Same.refl _)))
-              · have hk' : kv ∈ n1.hist := hk
-                rw [hh1] at hk'
-                rcases List.mem_cons.mp hk' with rfl | hk'
-                · refine Or.inr (Or.inr (Or.inr ⟨⟨f, KV.Same.refl _⟩, ?_⟩))
-                  rw [hmh, hh2]
-                  show n.hist.length + 2 ≤ (n1.hist).length + 1
-                  rw [hh1]
-                  simp
-                · exact Or.inl hk'
-            · rw [hh2] at hk
-              have hk' : kv ∈ n1.hist := hk
-              rw [hh1] at hk'
-              rcases List.mem_cons.mp hk' with rfl | hk'
-              · refine Or.inr (Or.inr (Or.inl ?_))
-                rw [hmk, hkv2]
-                show KV.Same (n.kv.putFabric f) n1.kv
-                rw [hkv1]; exact KV.Same.refl _
-              · exact Or.inl hk'
+          have hh1' : ({ n1 with managed := true } : Node).hist = n.kv.putFabric f :: n.hist := hh1
+          have hkv1' : ({ n1 with managed := true } : Node).kv = n.kv.putFabric f := hkv1
           cases b2 with
-          | false => exact hcase _ rfl rfl
-          | true => exact hcase _ rfl rfl
+          | true =>
+            rcases hst2 with ⟨_, hkv2, hh2⟩ | ⟨hb, _⟩
+            · refine Or.inr ⟨f, rfl, ⟨[n2.kv], [], ?_, (by simp), (fun _ h => by cases h), (fun kv h => ?_), (fun h => by simp at h)⟩, ?_⟩
+              · simp only [ok]; rw [hh2, hh1', hkv2]; rfl
+              · simp only [ok]; rw [List.mem_singleton.mp h]; exact KV.Same.refl _
+              · simp only [ok]; rw [hh2, hh1']; simp
+            · cases hb
+          | false =>
+            simp only []
+            rcases hst2 with ⟨hb, _⟩ | ⟨_, hkv2, hh2⟩
+            · cases hb
+            · rcases undoAdded_hist { n2 with managed := n1.managed } f.idx with ⟨hk0, hh0⟩ | ⟨hk0, hh0⟩
+              · refine Or.inl (one_of_commit ?_)
+                rw [hh0, hk0]
+                show n2.hist = n2.kv :: n.hist
+                rw [hh2, hkv2, hh1', hkv1']
+              · refine Or.inr ⟨f, rfl, ⟨[(undoAdded { n2 with managed := n1.managed } f.idx).kv], [], ?_, (by simp),
+                  (fun _ h => by cases h), (fun kv h => ?_), (fun h => by simp at h)⟩, ?_⟩
+                · rw [hh0, hk0]
+                  show n2.kv.delFabric f.idx :: n2.hist = _
+                  rw [hh2, hh1']; rfl
+                · rw [List.mem_singleton.mp h]; exact KV.Same.refl _
+                · rw [hh0]
+                  show n.hist.length + 2 = (n2.hist).length + 1
+                  rw [hh2, hh1']; simp
         · subst hb1
           simp only []
-          intro kv hk
-          rw [hh1] at hk
-          exact Or.inl hk
-
+          exact Or.inl (one_of_quiet (quiet_of_eq hkv1 hh1))
 
 /-! ### the whole step -/
+
+/-- a restart: the projection of the store it starts from, and the history grows by elements equal to it -/
+theorem restartFrom_grow (n : Node) (kv : KV) (hist : List KV) :
+    KV.Same (restartFrom n kv hist).kv kv ∧
+    ∃ new, (restartFrom n kv hist).hist = new ++ hist ∧ ∀ x ∈ new, KV.Same x kv := by
+  unfold restartFrom
+  cases hr : kv.resum <;> simp only [] <;> (try split) <;>
+    first
+      | exact ⟨same_of_fabs_nets triv triv, [], rfl, fun _ h => by cases h⟩
+      | exact ⟨same_of_fabs_nets triv triv, [_], rfl, fun x hx => by
+          rw [List.mem_singleton.mp hx]; exact same_of_fabs_nets triv triv⟩
+      | exact ⟨same_of_fabs_nets triv triv, [_, _], rfl, fun x hx => by
+          simp only [List.mem_cons, List.not_mem_nil, or_false] at hx
+          rcases hx with rfl | rfl <;> exact same_of_fabs_nets triv triv⟩
 
 theorem restartFrom_snaps (n : Node) (kv : KV) (hist : List KV) :
     KV.Same (restartFrom n kv hist).kv kv ∧
     ∀ x ∈ (restartFrom n kv hist).hist, x ∈ hist ∨ KV.Same x kv := by
-  unfold restartFrom
-  cases hr : kv.resum <;> simp only [] <;> (try split) <;>
-    (refine ⟨same_of_fabs_nets triv triv, fun x hx => ?_⟩
-     simp only [List.mem_cons] at hx
-     first
-       | exact Or.inl hx
-       | (rcases hx with rfl | hx
-          · exact Or.inr (same_of_fabs_nets triv triv)
-          · first
-              | exact Or.inl hx
-              | (rcases hx with rfl | hx
-                 · exact Or.inr (same_of_fabs_nets triv triv)
-                 · exact Or.inl hx)))
+  have ⟨h1, new, e, p⟩ := restartFrom_grow n kv hist
+  refine ⟨h1, fun x hx => ?_⟩
+  rw [e] at hx
+  rcases List.mem_append.mp hx with h | h
+  · exact Or.inr (p x h)
+  · exact Or.inl h
 
-/-- what one operation adds to the store history -/
-def StepSnaps (cfg : Cfg) (n : Node) (op : Op) : Prop :=
-  ∀ kv ∈ (step cfg n op).1.hist,
-    kv ∈ n.hist ∨ KV.Same kv n.kv ∨ KV.Same kv (step cfg n op).1.kv ∨
-    (∃ s, op = .complete s ∧ (∃ f, KV.Same kv (n.kv.putFabric f)) ∧
-      (checkTimeouts cfg n (some s)).1.hist.length + 2 ≤ (step cfg n op).1.hist.length)
+/-- the operations after which the store history is not an extension of the one before: a crash
+restarts from an earlier store (the later history never happened), the reset-before-start-up and the
+recovery from a damaged fabric blob start a new store history -/
+def rewinds : Op → Bool
+  | .crash _ | .coldreset | .fabrecover _ => true
+  | _ => false
 
-theorem stepSnaps_of_one {cfg : Cfg} {n : Node} {op : Op} (h : One n (step cfg n op).1) : StepSnaps cfg n op :=
-  fun kv hk => (h kv hk).elim Or.inl (fun x => x.elim (fun y => Or.inr (Or.inl y)) (fun y => Or.inr (Or.inr (Or.inl y))))
+/-- the CommissioningComplete `op` issued in state `n` performs two store mutations -/
+def twoWriteComplete (cfg : Cfg) (n : Node) (op : Op) : Prop :=
+  ∃ s, op = .complete s ∧ (checkTimeouts cfg n (some s)).1.hist.length + 2 ≤ (step cfg n op).1.hist.length
 
-theorem step_snaps (cfg : Cfg) (n : Node) (op : Op) (hop : op ≠ .freset) : StepSnaps cfg n op := by
+/-- the operations that do not arrive over a session and do not rewind the store history leave the
+projection of the store alone -/
+theorem step_nosess_quiet (cfg : Cfg) (n : Node) (op : Op) (hso : isSessOp op = none) (hop : op ≠ .freset)
+    (hrw : rewinds op = false) : Quiet n (step cfg n op).1 := by
+  cases op with
+  | boot => simp only [step, isSessOp]; split <;> exact quiet_of_eq rfl rfl
+  | pase =>
+    simp only [step, isSessOp]
+    split
+    · exact quiet_refl n
+    · have ⟨_, _, hk, hh, _⟩ := addSess_fields cfg n (.pase 0) 0 0
+      rcases hr : addSess cfg n (.pase 0) 0 0 with ⟨n1, o⟩
+      rw [hr] at hk hh
+      cases o <;> exact quiet_of_eq hk hh
+  | caseEst fab node rid =>
+    simp only [step, isSessOp]
+    split
+    · exact quiet_refl n
+    · rename_i f _
+      have ⟨_, _, hk, hh, _⟩ := addSess_fields cfg n (.case fab) node f.gen
+      rcases hr : addSess cfg n (.case fab) node f.gen with ⟨n1, o⟩
+      rw [hr] at hk hh
+      cases o <;> exact quiet_of_eq hk hh
+  | hs fab node rid =>
+    simp only [step, isSessOp]
+    split
+    · exact quiet_refl n
+    · rename_i f _
+      have ⟨_, _, hk, hh, _⟩ := addSess_fields cfg n (.case fab) node f.gen
+      rcases hr : addSess cfg n (.case fab) node f.gen with ⟨n1, o⟩
+      rw [hr] at hk hh
+      cases o <;> exact quiet_of_eq hk hh
+  | hsdone sid =>
+    simp only [step, isSessOp]
+    split <;> exact quiet_of_eq rfl rfl
+  | sdrop sid =>
+    simp only [step, isSessOp]
+    split <;> exact quiet_of_eq rfl rfl
+  | resume rid newRid =>
+    simp only [step, isSessOp]
+    split
+    · exact quiet_refl n
+    · rename_i r _
+      split
+      · exact quiet_refl n
+      · have ⟨_, _, hk, hh, _⟩ := addSess_fields cfg n (.case r.fab) r.peer r.gen
+        rcases hr : addSess cfg n (.case r.fab) r.peer r.gen with ⟨n1, o⟩
+        rw [hr] at hk hh
+        cases o <;> exact quiet_of_eq hk hh
+  | tick secs => exact quiet_of_eq rfl rfl
+  | poll =>
+    simp only [step, isSessOp]
+    have := checkTimeouts_quiet cfg n none
+    rcases hr : checkTimeouts cfg n none with ⟨n1, e⟩
+    rw [hr] at this
+    cases e <;> exact this
+  | flush =>
+    simp only [step, isSessOp]
+    have h1 := storeResum_quiet n
+    rcases hst : storeResum n with ⟨n1, b⟩
+    rw [hst] at h1
+    cases b <;> exact h1
+  | restart =>
+    simp only [step, isSessOp, ok]
+    have ⟨h1, h2⟩ := restartFrom_grow n n.kv n.hist
+    exact ⟨h1, h2⟩
+  | corrupt =>
+    simp only [step, isSessOp, ok]
+    have ⟨h1, new, e, p⟩ := restartFrom_grow n { n.kv with resum := .garbage } ({ n.kv with resum := .garbage } :: n.hist)
+    refine ⟨h1.trans (same_of_fabs_nets rfl rfl), new ++ [{ n.kv with resum := .garbage }], ?_, fun kv hk => ?_⟩
+    · rw [e]; simp
+    · rcases List.mem_append.mp hk with h | h
+      · exact (p kv h).trans (same_of_fabs_nets rfl rfl)
+      · rw [List.mem_singleton.mp h]; exact same_of_fabs_nets rfl rfl
+  | kvfail k => exact quiet_of_eq rfl rfl
+  | nop => exact quiet_refl n
+  | crash k => simp [rewinds] at hrw
+  | coldreset => simp [rewinds] at hrw
+  | fabrecover i => simp [rewinds] at hrw
+  | freset => exact absurd rfl hop
+  | _ => simp [isSessOp] at hso
+
+
+/-- **What one operation adds to the store history, in order** (every operation that does not rewind
+it, factory reset excluded): the history GROWS, newest first, by at most one element equal to the new
+store, then - only for a CommissioningComplete that performs two store mutations - the store between
+them (the store before with one fabric record written), then elements equal to the old store -/
+theorem step_seg (cfg : Cfg) (n : Node) (op : Op) (hop : op ≠ .freset) (hrw : rewinds op = false) :
+    ∃ mid, Seg n (step cfg n op).1 mid ∧
+      (mid = [] ∨ (twoWriteComplete cfg n op ∧
+        ∃ s f s1, op = .complete s ∧ getSess (checkTimeouts cfg n (some s)).1 s = some s1 ∧
+          getFabric (checkTimeouts cfg n (some s)).1 s1.mode.fab = some f ∧
+          mid = [(checkTimeouts cfg n (some s)).1.kv.putFabric f])) := by
   cases hso : isSessOp op with
   | some sid =>
     have hq := checkTimeouts_quiet cfg n (some sid)
-    rcases step_sess cfg n op sid hso with e | e | ⟨s1, _, e⟩
-    · exact stepSnaps_of_one (by rw [e]; exact one_of_quiet (quiet_refl n))
-    · exact stepSnaps_of_one (by rw [e]; exact one_of_quiet hq)
+    rcases step_sess cfg n op sid hso with e | e | ⟨s1, hg1, e⟩
+    · exact ⟨[], by rw [e]; exact one_of_quiet (quiet_refl n), Or.inl rfl⟩
+    · exact ⟨[], by rw [e]; exact one_of_quiet hq, Or.inl rfl⟩
     · by_cases hc : ∃ s, op = .complete s
       · obtain ⟨s, rfl⟩ := hc
-        intro kv hk
-        rw [e] at hk ⊢
         have hsid : sid = s := by simpa [isSessOp] using hso.symm
         subst hsid
-        rcases sessOp_complete_snaps cfg _ sid sid s1.mode kv hk with h | h | h | ⟨⟨f, h⟩, hlen⟩
-        · rcases hq.2 kv h with h' | h'
-          · exact Or.inl h'
-          · exact Or.inr (Or.inl h')
-        · exact Or.inr (Or.inl (h.trans hq.1))
-        · exact Or.inr (Or.inr (Or.inl h))
-        · exact Or.inr (Or.inr (Or.inr ⟨sid, rfl, ⟨f, h.trans (same_putFabric f hq.1)⟩, hlen⟩))
-      · refine stepSnaps_of_one ?_
+        rcases sessOp_complete_seg cfg (checkTimeouts cfg n (some sid)).1 sid sid s1.mode with h | ⟨f, hgf, h, hlen⟩
+        · exact ⟨[], by rw [e]; exact quiet_one hq h, Or.inl rfl⟩
+        · refine ⟨_, by rw [e]; exact quiet_seg hq h, Or.inr ⟨⟨sid, rfl, ?_⟩, sid, f, s1, rfl, hg1, hgf, rfl⟩⟩
+          rw [e, ← hlen]; exact Nat.le_refl _
+      · refine ⟨[], ?_, Or.inl rfl⟩
         rw [e]
         exact quiet_one hq (sessOp_one cfg _ sid s1.mode op (fun s hs => hc ⟨s, hs⟩))
-  | none =>
-    refine stepSnaps_of_one ?_
+  | none => exact ⟨[], one_of_quiet (step_nosess_quiet cfg n op hso hop hrw), Or.inl rfl⟩
+
+/-- what one operation adds to the store history (set-level) -/
+def StepSnaps (cfg : Cfg) (n : Node) (op : Op) : Prop :=
+  ∀ kv ∈ (step cfg n op).1.hist,
+    kv ∈ n.hist ∨ KV.Same kv n.kv ∨ KV.Same kv (step cfg n op).1.kv ∨
+    (∃ s, op = .complete s ∧
+      (∃ f s1, getSess (checkTimeouts cfg n (some s)).1 s = some s1 ∧
+        getFabric (checkTimeouts cfg n (some s)).1 s1.mode.fab = some f ∧ KV.Same kv (n.kv.putFabric f)) ∧
+      (checkTimeouts cfg n (some s)).1.hist.length + 2 ≤ (step cfg n op).1.hist.length)
+
+theorem step_snaps (cfg : Cfg) (n : Node) (op : Op) (hop : op ≠ .freset) : StepSnaps cfg n op := by
+  by_cases hrw : rewinds op = false
+  · obtain ⟨mid, hseg, hmid⟩ := step_seg cfg n op hop hrw
+    intro kv hk
+    rcases seg_mem hseg kv hk with h | h | h | h
+    · exact Or.inl h
+    · exact Or.inr (Or.inl h)
+    · exact Or.inr (Or.inr (Or.inl h))
+    · rcases hmid with rfl | ⟨⟨s, rfl, hlen⟩, s', f, s1, hs', hg1, hgf, rfl⟩
+      · cases h
+      · injection hs' with hs'
+        subst hs'
+        refine Or.inr (Or.inr (Or.inr ⟨s, rfl, ⟨f, s1, hg1, hgf, ?_⟩, hlen⟩))
+        rw [List.mem_singleton.mp h]
+        have hq := checkTimeouts_quiet cfg n (some s)
+        exact same_putFabric f hq.1
+  · intro kv hk
     cases op with
-    | boot => simp only [step, isSessOp]; split <;> exact one_of_quiet (quiet_of_eq rfl rfl)
-    | pase =>
-      simp only [step, isSessOp]
-      split
-      · exact one_of_quiet (quiet_refl n)
-      · have ⟨_, _, hk, hh, _⟩ := addSess_fields cfg n (.pase 0) 0 0
-        rcases hr : addSess cfg n (.pase 0) 0 0 with ⟨n1, o⟩
-        rw [hr] at hk hh
-        cases o <;> exact one_of_quiet (quiet_of_eq hk hh)
-    | caseEst fab node rid =>
-      simp only [step, isSessOp]
-      split
-      · exact one_of_quiet (quiet_refl n)
-      · rename_i f _
-        have ⟨_, _, hk, hh, _⟩ := addSess_fields cfg n (.case fab) node f.gen
-        rcases hr : addSess cfg n (.case fab) node f.gen with ⟨n1, o⟩
-        rw [hr] at hk hh
-        cases o <;> exact one_of_quiet (quiet_of_eq hk hh)
-    | hs fab node rid =>
-      simp only [step, isSessOp]
-      split
-      · exact one_of_quiet (quiet_refl n)
-      · rename_i f _
-        have ⟨_, _, hk, hh, _⟩ := addSess_fields cfg n (.case fab) node f.gen
-        rcases hr : addSess cfg n (.case fab) node f.gen with ⟨n1, o⟩
-        rw [hr] at hk hh
-        cases o <;> exact one_of_quiet (quiet_of_eq hk hh)
-    | hsdone sid =>
-      simp only [step, isSessOp]
-      split <;> exact one_of_quiet (quiet_of_eq rfl rfl)
-    | sdrop sid =>
-      simp only [step, isSessOp]
-      split <;> exact one_of_quiet (quiet_of_eq rfl rfl)
-    | resume rid newRid =>
-      simp only [step, isSessOp]
-      split
-      · exact one_of_quiet (quiet_refl n)
-      · rename_i r _
-        split
-        · exact one_of_quiet (quiet_refl n)
-        · have ⟨_, _, hk, hh, _⟩ := addSess_fields cfg n (.case r.fab) r.peer r.gen
-          rcases hr : addSess cfg n (.case r.fab) r.peer r.gen with ⟨n1, o⟩
-          rw [hr] at hk hh
-          cases o <;> exact one_of_quiet (quiet_of_eq hk hh)
-    | tick secs => exact one_of_quiet (quiet_of_eq rfl rfl)
-    | poll =>
-      simp only [step, isSessOp]
-      have := checkTimeouts_quiet cfg n none
-      rcases hr : checkTimeouts cfg n none with ⟨n1, e⟩
-      rw [hr] at this
-      cases e <;> exact one_of_quiet this
-    | flush =>
-      have ⟨_, hkv, hh⟩ := kvTick_frame n
-      rcases ht : kvTick n with ⟨n1, bad⟩
-      rw [ht] at hkv hh
-      simp only at hkv hh
-      simp only [step, isSessOp, ht]
-      cases bad with
-      | true => simp only [if_true]; exact one_of_quiet (quiet_of_eq hkv hh)
-      | false =>
-        simp only [Bool.false_eq_true, if_false, ok, kvCommit]
-        refine one_of_quiet ⟨same_of_fabs_nets (by simp [hkv]) (by simp [hkv]), fun kv hk => ?_⟩
-        rcases List.mem_cons.mp hk with rfl | hk
-        · exact Or.inr (same_of_fabs_nets (by simp [hkv]) (by simp [hkv]))
-        · exact Or.inl (by rw [← hh]; exact hk)
-    | restart =>
-      simp only [step, isSessOp, ok]
-      have ⟨h1, h2⟩ := restartFrom_snaps n n.kv n.hist
-      exact one_of_quiet ⟨h1, h2⟩
     | crash k =>
-      simp only [step, isSessOp, ok]
-      intro kv hk
+      simp only [step, isSessOp, ok] at hk ⊢
       cases hd : List.drop (n.hist.length - min k n.hist.length) n.hist with
       | nil =>
         rw [hd] at hk
         have ⟨h1, h2⟩ := restartFrom_snaps n {} []
         rcases h2 kv hk with h | h
         · cases h
-        · exact Or.inr (Or.inr (h.trans h1.symm))
+        · exact Or.inr (Or.inr (Or.inl (h.trans h1.symm)))
       | cons kv0 rest =>
         rw [hd] at hk
         have ⟨h1, h2⟩ := restartFrom_snaps n kv0 (kv0 :: rest)
@@ -499,21 +755,9 @@ theorem step_snaps (cfg : Cfg) (n : Node) (op : Op) (hop : op ≠ .freset) : Ste
         · left
           have : kv ∈ List.drop (n.hist.length - min k n.hist.length) n.hist := by rw [hd]; exact h
           exact List.mem_of_mem_drop this
-        · exact Or.inr (Or.inr (h.trans h1.symm))
-    | corrupt =>
-      simp only [step, isSessOp, ok]
-      have ⟨h1, h2⟩ := restartFrom_snaps n { n.kv with resum := .garbage } ({ n.kv with resum := .garbage } :: n.hist)
-      refine one_of_quiet ⟨h1.trans (same_of_fabs_nets rfl rfl), fun kv hk => ?_⟩
-      rcases h2 kv hk with h | h
-      · rcases List.mem_cons.mp h with rfl | h
-        · exact Or.inr (same_of_fabs_nets rfl rfl)
-        · exact Or.inl h
-      · exact Or.inr (h.trans (same_of_fabs_nets rfl rfl))
-    | kvfail k => exact one_of_quiet (quiet_of_eq rfl rfl)
-    | nop => exact one_of_quiet (quiet_refl n)
-    | coldreset => simp only [step, isSessOp, ok]; intro kv hk; cases hk
-    | fabrecover i => simp only [step, isSessOp, ok]; intro kv hk; cases hk
-    | freset => exact absurd rfl hop
-    | _ => simp [isSessOp] at hso
+        · exact Or.inr (Or.inr (Or.inl (h.trans h1.symm)))
+    | coldreset => simp only [step, isSessOp, ok] at hk; cases hk
+    | fabrecover i => simp only [step, isSessOp, ok] at hk; cases hk
+    | _ => simp [rewinds] at hrw
 
 end Admin
